@@ -17,8 +17,8 @@ CHECKS = {
    design="4.C01 / 2", note=BFS_NOTE, technique="explicit-state BFS of the evaluator's nodelist transition system against a reference model (product exploration, every edge executed on the implementation)"),
  "C02": dict(
    text="Same product exploration as C01 with the order relation on every edge: child segments must reproduce the model sequence exactly (input-node-major, selector order, "
-        "index / reverse order, member order, duplicates kept); descendant segments must be a linear extension of the RFC 2.5.2.2 visiting order with per-visited-node runs contiguous.",
-   design="4.C02 / 2", note=BFS_NOTE, technique="explicit-state BFS of the nodelist transition system with an order oracle accepting exactly the RFC-permitted sequences"),
+        "index / reverse order, member order, duplicates kept); descendant segments must visit nodes in the document pre-order (RFC 2.5.2.2 partial order with object members in the document's own member order, as the property states) with per-visited-node runs contiguous.",
+   design="4.C02 / 2", note=BFS_NOTE, technique="explicit-state BFS of the nodelist transition system with an order oracle accepting exactly the sequences the property permits"),
  "C03": dict(
    text="Same product exploration over documents whose member names need escaping and over every spelling route (single-quoted, double-quoted, shorthand, wildcard, descendant, "
         "slice, negative index, filter): every reported path must equal the RFC 2.7 normalized path of the node identified by address, equal paths iff equal nodes, and each "
@@ -67,7 +67,7 @@ CHECKS = {
         "through programmatically built queries; a depth ladder runs each nesting construct (parentheses, negations, nested filters, function calls, segments, ||/&& chains, unions, "
         "document depth under descendant segments) at depths 8..32768 in isolated subprocesses with an 8 MiB stack and a wall-clock horizon; size ladders (wide arrays / objects, long names / strings, "
         "wide equality) - in the thorough tier also with a debug build of jsonpath-rust; ladders for nesting shapes whose cost must stay polynomial (depth 8..32, 15 s horizon); regular-expression stress "
-        "patterns and nesting ladders over every depth 1..300; queries and name selectors built directly from the public model types (ill-typed function expressions included).",
+        "patterns and nesting ladders over every depth 1..300; functions over lists (every size 0..34, 63..65, 100 x 9 element mixes x arrangements x 14 queries); queries and name selectors built directly from the public model types (ill-typed function expressions included).",
    design="4.C08", note="bounds: the enumerated spaces, the cube values, the ladder rungs; asymptotic claims are out of reach; stack exhaustion findings are identified by (construct, first failing rung)",
    technique="exhaustive enumeration of bounded input spaces under panic / abort / timeout observation (subprocess isolation for stack exhaustion)"),
  "C05": dict(
